@@ -105,7 +105,7 @@ pub fn run(args: &[String]) -> i32 {
         for (cname, codec) in codecs {
             let Some(b) = build(schema, codec, &groups, marker) else { continue };
             out.count(&format!("files_{cname}"));
-            let short_text = if text.len() > 200 { &text[..200] } else { &text[..] };
+            let short_text = crate::util::trunc(&text, 200);
             // sanity of the harness's own bookkeeping
             if split_file(&b.file).map(|(h, _, bl)| (h.len(), bl.len())) != Some((b.header_len, b.blocks.len())) {
                 out.oracle_fail("layout", "independent parser disagrees with the block boundaries observed while writing", short_text);
